@@ -214,32 +214,38 @@ Proof.
   unfold bufs_modified. destruct (nth_error (bufs s) i) as [[b|]|]; cbn; repeat split; auto. apply set_nth_length.
 Qed.
 
-(* bufs_switch *)
-Lemma switch_bufs s idx : bufs (bufs_switch s idx) = switch (upd0 (fun b => set_view b (xv s)) (bufs s)) idx.
+(* bufs_switch Lo *)
+(* the table right before the rotation: globals saved into slot 0, its command counter bumped *)
+Definition saved s : list slot := upd0 bump (upd0 (fun b => set_view b (xv s)) (bufs s)).
+Lemma saved_tail s j : (1 <= j)%nat -> nth_error (saved s) j = nth_error (bufs s) j.
+Proof. intro H. unfold saved. rewrite !upd0_tail by exact H. reflexivity. Qed.
+Lemma saved_length s : length (saved s) = length (bufs s).
+Proof. unfold saved. rewrite !upd0_length. reflexivity. Qed.
+Lemma switch_bufs s idx : bufs (bufs_switch Lo s idx) = switch (saved s) idx.
 Proof. unfold bufs_switch, bufs_load. cbn. destruct (slot0 _); reflexivity. Qed.
-Lemma switch_xv s idx : xv (bufs_switch s idx) =
-  match slot0 (bufs_switch s idx) with Some b => b_view b | None => viewz end.
+Lemma switch_xv s idx : xv (bufs_switch Lo s idx) =
+  match slot0 (bufs_switch Lo s idx) with Some b => b_view b | None => viewz end.
 Proof. unfold bufs_switch, bufs_load. destruct (slot0 _) eqn:E; cbn; unfold slot0 in *; cbn in *; rewrite E; reflexivity. Qed.
-Lemma switch_coh s idx : coh (bufs_switch s idx).
+Lemma switch_coh s idx : coh (bufs_switch Lo s idx).
 Proof. intros b H. rewrite switch_xv, H. reflexivity. Qed.
 Lemma slot0_nth (s : st) : slot0 s = match nth_error (bufs s) 0 with Some x => x | None => None end.
 Proof. unfold slot0. destruct (bufs s); reflexivity. Qed.
-Lemma switch_fields s idx : let s' := bufs_switch s idx in
+Lemma switch_fields s idx : let s' := bufs_switch Lo s idx in
   length (bufs s') = length (bufs s) /\ cnt s' = cnt s /\ fs s' = fs s /\ xwa s' = xwa s /\ xquit s' = xquit s /\ args s' = args s /\ next_pos s' = next_pos s.
 Proof.
-  cbn zeta. rewrite switch_bufs, switch_length, upd0_length. unfold bufs_switch, bufs_load. destruct (slot0 _); cbn; repeat split; auto.
+  cbn zeta. rewrite switch_bufs, switch_length, saved_length. unfold bufs_switch, bufs_load. destruct (slot0 _); cbn; repeat split; auto.
 Qed.
 
 Lemma set_view_same (b : buf) : set_view b (b_view b) = b. Proof. destruct b; reflexivity. Qed.
-Lemma save_coh s : coh s -> upd0 (fun b => set_view b (xv s)) (bufs s) = bufs s.
+Lemma save_coh s : coh s -> saved s = upd0 bump (bufs s).
 Proof.
-  intro C. unfold coh, slot0 in C. destruct (bufs s) as [|[b|] r]; cbn; auto.
+  intro C. unfold saved. f_equal. unfold coh, slot0 in C. destruct (bufs s) as [|[b|] r]; cbn; auto.
   rewrite (C b eq_refl), set_view_same. reflexivity.
 Qed.
 
-Lemma K0_switch_list s idx (l : list slot) : bufs (bufs_switch s idx) = switch l idx ->
+Lemma K0_switch_list s idx (l : list slot) : bufs (bufs_switch Lo s idx) = switch l idx ->
   forall j b, nth_error l j = Some (Some b) ->
-  exists j' b', nth_error (bufs (bufs_switch s idx)) j' = Some (Some b') /\ same_buf b b' /\ (j' = 0%nat -> xv (bufs_switch s idx) = b_view b).
+  exists j' b', nth_error (bufs (bufs_switch Lo s idx)) j' = Some (Some b') /\ same_buf b b' /\ (j' = 0%nat -> xv (bufs_switch Lo s idx) = b_view b).
 Proof.
   intros E j b Hb. destruct (nth_error l idx) as [x|] eqn:Ex.
   - destruct (lt_eq_lt_dec j idx) as [[Hlt|Heq]|Hgt].
@@ -251,48 +257,52 @@ Proof.
   - exists j, b. rewrite E, (switch_oob l idx Ex). split; [exact Hb|]. split; [apply same_refl|].
     intro Z. subst j. rewrite switch_xv, slot0_nth, E, (switch_oob l idx Ex), Hb. reflexivity.
 Qed.
-Lemma K_switch s idx : K s (bufs_switch s idx).
+Lemma K_switch s idx : K s (bufs_switch Lo s idx).
 Proof.
-  intros j b Hj Hb. apply (K0_switch_list s idx _ (switch_bufs s idx) j b). rewrite upd0_tail by exact Hj. exact Hb.
+  intros j b Hj Hb. apply (K0_switch_list s idx _ (switch_bufs s idx) j b). rewrite saved_tail by exact Hj. exact Hb.
 Qed.
-Lemma K0_switch s idx : coh s -> K0 s (bufs_switch s idx).
+Lemma K0_switch s idx : coh s -> K0 s (bufs_switch Lo s idx).
 Proof.
-  intros C j b Hb. apply (K0_switch_list s idx (bufs s)) with (j := j); auto. rewrite switch_bufs, (save_coh s C). reflexivity.
+  intros C j b Hb. pose proof (switch_bufs s idx) as E. rewrite (save_coh s C) in E.
+  destruct j as [|j].
+  - assert (H0 : nth_error (upd0 bump (bufs s)) 0 = Some (Some (bump b))).
+    { destruct (bufs s) as [|x r]; cbn in *; [discriminate|]. inversion Hb; subst. reflexivity. }
+    destruct (K0_switch_list s idx _ E 0%nat (bump b) H0) as (j' & b' & A & B & V). exists j', b'.
+    split; [exact A|]. split; [eapply same_trans; [apply same_bump|exact B]|]. intro Z. rewrite (V Z). reflexivity.
+  - apply (K0_switch_list s idx _ E (S j) b). rewrite upd0_tail by lia. exact Hb.
 Qed.
 
 (* ---------- C20_switch_permutes ---------- *)
 Theorem switch_permutes s idx :
-  let saved := upd0 (fun b => set_view b (xv s)) (bufs s) in
-  let s' := bufs_switch s idx in
-  bufs s' = switch saved idx /\ Permutation (bufs s') saved /\
-  (forall j, (1 <= j)%nat -> nth_error saved j = nth_error (bufs s) j) /\
-  (forall b, nth_error (bufs s) 0 = Some (Some b) -> nth_error saved 0 = Some (Some (set_view b (xv s)))) /\
-  map (option_map b_lb) saved = map (option_map b_lb) (bufs s) /\
+  let s' := bufs_switch Lo s idx in
+  bufs s' = switch (saved s) idx /\ Permutation (bufs s') (saved s) /\
+  (forall j, (1 <= j)%nat -> nth_error (saved s) j = nth_error (bufs s) j) /\
+  (forall b, nth_error (bufs s) 0 = Some (Some b) -> nth_error (saved s) 0 = Some (Some (bump (set_view b (xv s))))) /\
   xv s' = match slot0 s' with Some b => b_view b | None => viewz end /\
   cnt s' = cnt s /\ fs s' = fs s.
 Proof.
   cbn zeta. split; [apply switch_bufs|]. split; [rewrite switch_bufs; apply switch_perm|].
-  split; [intros; apply upd0_tail; auto|]. split.
-  { intros b H. destruct (bufs s) as [|x r]; cbn in *; [discriminate|]. inversion H; subst. reflexivity. }
-  split. { destruct (bufs s) as [|[b|] r]; reflexivity. }
+  split; [intros; apply saved_tail; auto|]. split.
+  { intros b H. unfold saved. destruct (bufs s) as [|x r]; cbn in *; [discriminate|]. inversion H; subst. reflexivity. }
   split; [apply switch_xv|]. destruct (switch_fields s idx) as (_ & A & B & _). auto.
 Qed.
 
 (* ---------- bufs_find, bufs_findroom ---------- *)
 Lemma has_path_set_view p v (x : slot) : has_path p (upd_slot (fun b => set_view b v) x) = has_path p x.
 Proof. destruct x; reflexivity. Qed.
-Lemma find_after_switch s k p i : bufs_find s p = Some i -> bufs_find (bufs_switch s k) p <> None.
+Lemma has_path_bump p (x : slot) : has_path p (upd_slot bump x) = has_path p x.
+Proof. destruct x; reflexivity. Qed.
+Lemma find_after_switch s k p i : bufs_find s p = Some i -> bufs_find (bufs_switch Lo s k) p <> None.
 Proof.
   unfold bufs_find. intro H. destruct (first_idx_some _ _ _ H) as (x & Hx & Fx & _).
   rewrite switch_bufs. set (v := xv s).
-  assert (In (upd_slot (fun b => set_view b v) x) (upd0 (fun b => set_view b v) (bufs s)) \/ In x (upd0 (fun b => set_view b v) (bufs s))) as Hin.
+  assert (exists y, In y (saved s) /\ has_path (canon p) y = true) as (y & Hin & Fy).
   { destruct i.
-    - left. destruct (bufs s); cbn in *; [discriminate|]. inversion Hx; subst. left. reflexivity.
-    - right. apply nth_error_In with (n := S i). rewrite upd0_tail by lia. exact Hx. }
-  destruct Hin as [Hin|Hin].
-  - eapply first_idx_found; [eapply Permutation_in; [symmetry; apply switch_perm | exact Hin]|].
-    rewrite has_path_set_view. exact Fx.
-  - eapply first_idx_found; [eapply Permutation_in; [symmetry; apply switch_perm | exact Hin]| exact Fx].
+    - exists (upd_slot bump (upd_slot (fun b => set_view b v) x)). split.
+      + unfold saved. destruct (bufs s); cbn in *; [discriminate|]. inversion Hx; subst. left. reflexivity.
+      + rewrite has_path_bump, has_path_set_view. exact Fx.
+    - exists x. split; [|exact Fx]. apply nth_error_In with (n := S i). rewrite saved_tail by lia. exact Hx. }
+  eapply first_idx_found; [eapply Permutation_in; [symmetry; apply switch_perm | exact Hin]| exact Fy].
 Qed.
 
 Lemma findroom_free (s : st) : length (bufs s) = NB -> In None (bufs s) -> nth_error (bufs s) (bufs_findroom s) = Some None.
@@ -338,7 +348,7 @@ Proof.
 Qed.
 
 Lemma K1_open_switch s p : length (bufs s) = NB -> In None (bufs s) ->
-  let (s', idx) := bufs_open Lo s p in K1 s (bufs_switch s' idx) /\ cnt s' = cnt s + 1.
+  let (s', idx) := bufs_open Lo s p in K1 s (bufs_switch Lo s' idx) /\ cnt s' = cnt s + 1.
 Proof.
   intros Hl Hin. unfold bufs_open. pose proof (findroom_free s Hl Hin) as Hf. set (idx := bufs_findroom s) in *.
   split; [|reflexivity]. intros j b Hj Hb.
@@ -346,12 +356,12 @@ Proof.
   set (s' := bufs_init Lo s idx (canon p)).
   assert (Hs' : nth_error (bufs s') j = Some (Some b)).
   { unfold s', bufs_init. cbn. rewrite nth_error_set_nth_neq by congruence. exact Hb. }
-  assert (Hi : exists x, nth_error (upd0 (fun b0 => set_view b0 (xv s')) (bufs s')) idx = Some x).
-  { assert (idx < length (upd0 (fun b0 => set_view b0 (xv s')) (bufs s')))%nat.
-    { rewrite upd0_length. unfold s', bufs_init. cbn. rewrite set_nth_length. apply nth_error_Some. congruence. }
-    destruct (nth_error (upd0 (fun b0 => set_view b0 (xv s')) (bufs s')) idx) eqn:E; eauto. apply nth_error_None in E. lia. }
+  assert (Hi : exists x, nth_error (saved s') idx = Some x).
+  { assert (idx < length (saved s'))%nat.
+    { rewrite saved_length. unfold s', bufs_init. cbn. rewrite set_nth_length. apply nth_error_Some. congruence. }
+    destruct (nth_error (saved s') idx) eqn:E; eauto. apply nth_error_None in E. lia. }
   destruct Hi as [x Hx].
-  assert (Hs'' : nth_error (upd0 (fun b0 => set_view b0 (xv s')) (bufs s')) j = Some (Some b)) by (rewrite upd0_tail by exact Hj; exact Hs').
+  assert (Hs'' : nth_error (saved s') j = Some (Some b)) by (rewrite saved_tail by exact Hj; exact Hs').
   destruct (lt_eq_lt_dec j idx) as [[Hlt|Heq]|Hgt]; [|congruence|].
   - exists (S j), b. rewrite switch_bufs, (switch_nth_lt _ idx x j Hx Hlt). split; [lia|]. split; [exact Hs''|apply same_refl].
   - exists j, b. rewrite switch_bufs, (switch_nth_gt _ idx x j Hx Hgt). split; [lia|]. split; [exact Hs''|apply same_refl].
@@ -380,8 +390,8 @@ Proof.
   destruct refused; cbn [fst] in *. { eapply Kp_K; [exact P0|apply K_refl]. }
   destruct (pathexpand s0 a) as [p|]; cbn [fst] in *; [|eapply Kp_K; [exact P0|apply K_refl]].
   set (nonempty := match p with [] => false | _ => true end) in *.
-  set (s1 := if nonempty && ew then match bufs_find s0 p with Some i => if (1 <? i)%nat then bufs_switch s0 1 else s0 | None => s0 end else s0) in *.
-  assert (Cases : s1 = s0 \/ (s1 = bufs_switch s0 1 /\ nonempty = true /\ exists i, bufs_find s0 p = Some i)).
+  set (s1 := if nonempty && ew then match bufs_find s0 p with Some i => if (1 <? i)%nat then bufs_switch Lo s0 1 else s0 | None => s0 end else s0) in *.
+  assert (Cases : s1 = s0 \/ (s1 = bufs_switch Lo s0 1 /\ nonempty = true /\ exists i, bufs_find s0 p = Some i)).
   { unfold s1. destruct (nonempty && ew) eqn:Ne; auto. destruct (bufs_find s0 p) as [i|] eqn:Ef; auto.
     destruct (1 <? i)%nat; auto. right. apply andb_true_iff in Ne. destruct Ne. eauto. }
   clearbody s1. destruct Cases as [-> | (E1 & Hne & i & Hfi)].
@@ -390,16 +400,16 @@ Proof.
     + destruct (nonempty || is_free (slot0 s0)) eqn:Eo.
       * destruct Hroom as [Hin | Hc].
         -- pose proof (K1_open_switch s0 p Hl0 (Hin0 Hin)) as Ho. destruct (bufs_open Lo s0 p) as [s' idx]. destruct Ho as [Ho _].
-           destruct (edit_read Lo (bufs_switch s' idx) nonempty) as [s3 evs] eqn:Er. cbn [fst].
-           eapply Kp_K; [exact P0|]. apply K1_K. eapply K1_Kt; [exact Ho|]. pose proof (Kt_edit_read (bufs_switch s' idx) nonempty) as T. rewrite Er in T. exact T.
+           destruct (edit_read Lo (bufs_switch Lo s' idx) nonempty) as [s3 evs] eqn:Er. cbn [fst].
+           eapply Kp_K; [exact P0|]. apply K1_K. eapply K1_Kt; [exact Ho|]. pose proof (Kt_edit_read (bufs_switch Lo s' idx) nonempty) as T. rewrite Er in T. exact T.
         -- exfalso. unfold bufs_open in Hc. revert Hc.
-           destruct (edit_read Lo (bufs_switch (bufs_init Lo s0 (bufs_findroom s0) (canon p)) (bufs_findroom s0)) nonempty) as [s3 evs] eqn:Er. cbn [fst].
-           pose proof (edit_read_cnt (bufs_switch (bufs_init Lo s0 (bufs_findroom s0) (canon p)) (bufs_findroom s0)) nonempty) as C. rewrite Er in C. cbn in C.
+           destruct (edit_read Lo (bufs_switch Lo (bufs_init Lo s0 (bufs_findroom s0) (canon p)) (bufs_findroom s0)) nonempty) as [s3 evs] eqn:Er. cbn [fst].
+           pose proof (edit_read_cnt (bufs_switch Lo (bufs_init Lo s0 (bufs_findroom s0) (canon p)) (bufs_findroom s0)) nonempty) as C. rewrite Er in C. cbn in C.
            destruct (switch_fields (bufs_init Lo s0 (bufs_findroom s0) (canon p)) (bufs_findroom s0)) as (_ & C2 & _). cbn in C2.
            intro Hc. rewrite C, C2 in Hc. cbn in Hc. lia.
       * destruct (edit_read Lo s0 nonempty) as [s3 evs] eqn:Er. cbn [fst].
         eapply Kp_K; [exact P0|]. apply K1_K, Kt_K1. pose proof (Kt_edit_read s0 nonempty) as T. rewrite Er in T. exact T.
-  - subst s1. rewrite Hne in *. destruct (bufs_find (bufs_switch s0 1) p) as [k|] eqn:Ef; cbn [fst] in *.
+  - subst s1. rewrite Hne in *. destruct (bufs_find (bufs_switch Lo s0 1) p) as [k|] eqn:Ef; cbn [fst] in *.
     + eapply Kp_K; [exact P0|]. eapply K_K0; [apply K_switch|]. apply K0_switch. apply switch_coh.
     + exfalso. exact (find_after_switch s0 1 p i Hfi Ef).
 Qed.
@@ -503,13 +513,13 @@ Proof.
   destruct (if bang || xwa s then (s, false) else bufs_modified Lo s 0) as [s0 refused]. cbn [fst] in P.
   destruct refused; cbn [fst]; [exact P|]. destruct (pathexpand s0 a) as [p|]; cbn [fst]; [|exact P].
   set (nonempty := match p with [] => false | _ => true end).
-  set (s1 := if nonempty && ew then match bufs_find s0 p with Some i => if (1 <? i)%nat then bufs_switch s0 1 else s0 | None => s0 end else s0).
+  set (s1 := if nonempty && ew then match bufs_find s0 p with Some i => if (1 <? i)%nat then bufs_switch Lo s0 1 else s0 | None => s0 end else s0).
   assert (P1 : length (bufs s1) = length (bufs s)).
   { unfold s1. destruct (nonempty && ew); [|exact P]. destruct (bufs_find s0 p); [|exact P]. destruct (1 <? n)%nat; [|exact P].
     rewrite <- P. apply switch_fields. }
   clearbody s1. destruct (if nonempty then bufs_find s1 p else None); cbn [fst].
   - rewrite <- P1. apply switch_fields.
-  - set (s2 := if nonempty || is_free (slot0 s1) then let (s', idx) := bufs_open Lo s1 p in bufs_switch s' idx else s1).
+  - set (s2 := if nonempty || is_free (slot0 s1) then let (s', idx) := bufs_open Lo s1 p in bufs_switch Lo s' idx else s1).
     assert (P2 : length (bufs s2) = length (bufs s)).
     { unfold s2. destruct (nonempty || is_free (slot0 s1)); [|exact P1]. unfold bufs_open.
       destruct (switch_fields (bufs_init Lo s1 (bufs_findroom s1) (canon p)) (bufs_findroom s1)) as [X _]. rewrite X.
@@ -607,7 +617,7 @@ Lemma modified_at s i b : nth_error (bufs s) i = Some (Some b) -> nth_error (buf
 Proof.
   intro E. unfold bufs_modified. rewrite E. cbn. apply nth_error_set_nth_eq. apply nth_error_Some. congruence.
 Qed.
-Lemma switch_slot0 s i x : nth_error (upd0 (fun b => set_view b (xv s)) (bufs s)) i = Some x -> slot0 (bufs_switch s i) = x.
+Lemma switch_slot0 s i x : nth_error (saved s) i = Some x -> slot0 (bufs_switch Lo s i) = x.
 Proof. intro E. rewrite slot0_nth, switch_bufs, (switch_nth0 _ i x E). reflexivity. Qed.
 
 Lemma quit_walk_spec : forall n s i, let r := quit_walk Lo s i n in
@@ -615,7 +625,7 @@ Lemma quit_walk_spec : forall n s i, let r := quit_walk Lo s i n in
   ((snd r = false /\ forall k, (i <= k < i + n)%nat -> dirty_at s k = false)
    \/ (snd r = true /\ exists k b, (i <= k < i + n)%nat /\ nth_error (bufs s) k = Some (Some b) /\ dirty_slot (Some b) = true /\
         (forall k', (i <= k' < k)%nat -> dirty_at s k' = false) /\
-        slot0 (fst r) = Some (if Nat.eqb k 0 then set_view (bump b) (xv s) else bump b))).
+        slot0 (fst r) = Some (if Nat.eqb k 0 then bump (set_view (bump b) (xv s)) else bump b))).
 Proof.
   induction n as [|n IH]; intros s i; cbn zeta; cbn [quit_walk].
   - split; [reflexivity|]. left. split; [reflexivity|]. intros; lia.
@@ -625,9 +635,9 @@ Proof.
     + cbn [fst snd]. split; [destruct (switch_fields s1 i) as (_ & _ & _ & _ & Q2 & _); congruence|]. right. split; [reflexivity|].
       unfold dirty_at in D. destruct (nth_error (bufs s) i) as [[b|]|] eqn:E; try discriminate.
       exists i, b. split; [lia|]. split; [first [exact E|reflexivity]|]. split; [symmetry; exact D|]. split; [intros; lia|].
-      apply switch_slot0. rewrite X. specialize (At b eq_refl). destruct i as [|i]; cbn [Nat.eqb].
-      * destruct (bufs s1) as [|y r]; cbn in *; [discriminate|]. inversion At; subst. reflexivity.
-      * rewrite upd0_tail by lia. exact At.
+      apply switch_slot0. specialize (At b eq_refl). destruct i as [|i]; cbn [Nat.eqb].
+      * unfold saved. rewrite X. destruct (bufs s1) as [|y r]; cbn in *; [discriminate|]. inversion At; subst. reflexivity.
+      * rewrite saved_tail by lia. exact At.
     + specialize (IH s1 (S i)). cbn zeta in IH. destruct IH as [Q2 IH]. split; [congruence|].
       assert (Da : forall k, (S i <= k)%nat -> dirty_at s1 k = dirty_at s k).
       { intros k Hk. unfold dirty_at. rewrite Oth by lia. reflexivity. }
@@ -642,7 +652,7 @@ Theorem quit_walk_thm s : let s' := fst (ec_quit Lo s false) in
   ((forall k, (k < NB)%nat -> dirty_at s k = false) -> xquit s' = true) /\
   (forall k, (k < NB)%nat -> dirty_at s k = true -> (forall k', (k' < k)%nat -> dirty_at s k' = false) ->
      xquit s' = xquit s /\ exists b, nth_error (bufs s) k = Some (Some b) /\
-     slot0 s' = Some (if Nat.eqb k 0 then set_view (bump b) (xv s) else bump b)).
+     slot0 s' = Some (if Nat.eqb k 0 then bump (set_view (bump b) (xv s)) else bump b)).
 Proof.
   cbn zeta. unfold ec_quit. pose proof (quit_walk_spec NB s 0) as H. cbn zeta in H.
   destruct (quit_walk Lo s 0 NB) as [s1 f]. cbn [fst snd] in H. destruct H as [Q H]. split.
@@ -662,8 +672,8 @@ Lemma goto_reaches s i b : (1 <= i)%nat -> nth_error (bufs s) i = Some (Some b) 
   let s' := fst (buffer_goto Lo s (Some i)) in slot0 s' = Some b /\ xv s' = b_view b /\ fs s' = fs s.
 Proof.
   intros Hi Hb Hok. cbn zeta. unfold buffer_goto, occupied. rewrite Hb.
-  assert (G : forall s0, nth_error (bufs s0) i = Some (Some b) -> slot0 (bufs_switch s0 i) = Some b /\ xv (bufs_switch s0 i) = b_view b /\ fs (bufs_switch s0 i) = fs s0).
-  { intros s0 H0. assert (S0 : slot0 (bufs_switch s0 i) = Some b) by (apply switch_slot0; rewrite upd0_tail by exact Hi; exact H0).
+  assert (G : forall s0, nth_error (bufs s0) i = Some (Some b) -> slot0 (bufs_switch Lo s0 i) = Some b /\ xv (bufs_switch Lo s0 i) = b_view b /\ fs (bufs_switch Lo s0 i) = fs s0).
+  { intros s0 H0. assert (S0 : slot0 (bufs_switch Lo s0 i) = Some b) by (apply switch_slot0; rewrite saved_tail by exact Hi; exact H0).
     split; [exact S0|]. split; [rewrite switch_xv, S0; reflexivity|]. apply switch_fields. }
   destruct (xwa s) eqn:W; [apply G; exact Hb|]. destruct Hok as [?|D]; [discriminate|].
   pose proof (modified_snd s 0) as Ds. pose proof (modified_other s 0 i ltac:(lia)) as Oth. pose proof (modified_fields s 0) as (_ & _ & F & _).
@@ -696,12 +706,12 @@ Qed.
    passes through bufs_modified, which only bumps the counter of slot 0.) *)
 Theorem reaches_path s bang a p i b : bang || xwa s = true -> pathexpand s a = Some p -> p <> [] ->
   bufs_find s p = Some i -> (1 <= i)%nat -> nth_error (bufs s) i = Some (Some b) ->
-  ec_edit Lo s bang false a = (bufs_switch s i, [], true) /\
-  slot0 (bufs_switch s i) = Some b /\ xv (bufs_switch s i) = b_view b /\ fs (bufs_switch s i) = fs s /\ b_path b = canon p.
+  ec_edit Lo s bang false a = (bufs_switch Lo s i, [], true) /\
+  slot0 (bufs_switch Lo s i) = Some b /\ xv (bufs_switch Lo s i) = b_view b /\ fs (bufs_switch Lo s i) = fs s /\ b_path b = canon p.
 Proof.
   intros Hb Hp Hne Hf Hi Hn. split.
   - unfold ec_edit. rewrite Hb, Hp. destruct p as [|x r]; [congruence|]. rewrite andb_false_r. rewrite Hf. reflexivity.
-  - assert (S0 : slot0 (bufs_switch s i) = Some b) by (apply switch_slot0; rewrite upd0_tail by exact Hi; exact Hn).
+  - assert (S0 : slot0 (bufs_switch Lo s i) = Some b) by (apply switch_slot0; rewrite saved_tail by exact Hi; exact Hn).
     split; [exact S0|]. split; [rewrite switch_xv, S0; reflexivity|]. split; [apply switch_fields|].
     unfold bufs_find in Hf. destruct (first_idx_some _ _ _ Hf) as (x & Hx & Fx & _).
     assert (x = Some b) by congruence. subst x. cbn in Fx. apply path_eqb_eq in Fx. exact Fx.
@@ -711,8 +721,8 @@ Qed.
 Theorem reaches_alt s bang b0 b1 : bang || xwa s = true ->
   nth_error (bufs s) 0 = Some (Some b0) -> nth_error (bufs s) 1 = Some (Some b1) ->
   b_path b1 <> [47%N] -> b_path b0 <> b_path b1 ->
-  fst (fst (ec_edit Lo s bang false PAlt)) = bufs_switch s 1 /\ snd (fst (ec_edit Lo s bang false PAlt)) = [] /\
-  slot0 (bufs_switch s 1) = Some b1 /\ xv (bufs_switch s 1) = b_view b1 /\ fs (bufs_switch s 1) = fs s.
+  fst (fst (ec_edit Lo s bang false PAlt)) = bufs_switch Lo s 1 /\ snd (fst (ec_edit Lo s bang false PAlt)) = [] /\
+  slot0 (bufs_switch Lo s 1) = Some b1 /\ xv (bufs_switch Lo s 1) = b_view b1 /\ fs (bufs_switch Lo s 1) = fs s.
 Proof.
   intros Hb H0 H1 Hs Hd.
   set (p := match b_path b1 with [] => [47%N] | q => q end).
